@@ -146,6 +146,10 @@ def _run(case):
 
     ver = {"v": 0}
     ht = None
+    sync_grads = []      # per completed synchronisation: the training model's gradients just before it and just after it (silent reads)
+
+    def tgrads():
+        return [p._grad for p in tm.model.parameters()]
     if case.get("via_trainer"):
         # the training side is a real TorchTrainer (optimizers created in setup(), kept states, sync_models after train())
         import torch.optim as optim
@@ -176,8 +180,11 @@ def _run(case):
 
             def sync_models(self):
                 phase["t"] = "sync"
+                before = tgrads()
                 try:
-                    return super().sync_models()
+                    r = super().sync_models()
+                    sync_grads.append([before, tgrads()])
+                    return r
                 finally:
                     phase["t"] = "step"
 
@@ -204,7 +211,9 @@ def _run(case):
                         p.grad = 100 + ver["v"]
                 else:
                     phase["t"] = "sync"
+                    before = tgrads()
                     tm.sync()
+                    sync_grads.append([before, tgrads()])
                     phase["t"] = "step"
         finally:
             sys.settrace(None)
@@ -244,7 +253,7 @@ def _run(case):
     fin = {"train_ref": ren.get(tm.model.mid), "inf_ref": ren.get(im._raw_model.mid),
            "train_params": [p._v for p in tm.model.parameters()], "inf_params": [p._v for p in im._raw_model.parameters()],
            "train_grads": [p._grad for p in tm.model.parameters()], "train_mode": tm.model.training, "inf_mode": im._raw_model.training}
-    return {"events": out, "sections": secs, "final": fin, "choices": state["k"]}
+    return {"events": out, "sections": secs, "final": fin, "choices": state["k"], "sync_grads": sync_grads}
 
 
 def main():
